@@ -11,11 +11,10 @@ import time
 import traceback
 
 
-class CaseTimeout(Exception):
-    pass
 
 
 def _alarm(signum, frame):
+    from vlib.probe import CaseTimeout
     raise CaseTimeout()
 
 
@@ -53,6 +52,7 @@ def main():
         if not su.have_chist or not iu.have_cgauleg:
             raise RuntimeError("compiled engines not enabled")
         from vlib import probe
+        from vlib.probe import CaseTimeout
         mod = importlib.import_module("vlib.props." + a.prop.lower())
         mod.install()
         if a.replay:
